@@ -190,6 +190,8 @@ func (h *Hub) CancelPairingWithSKI(ski string) {
 	// waits for the user, one that came in before is found below
 	service := h.ServiceForSKI(ski)
 	service.SetTrusted(false)
+	// also no longer queued for pairing: an own dial that is still in flight is dropped when it is done
+	service.ConnectionStateDetail().SetState(api.ConnectionStateNone)
 
 	// wait for a connection that is just being set up, it is registered afterwards
 	h.muxConSetup.Lock()
